@@ -40,8 +40,8 @@ def cosim(name, mod, gendir, build, repo, seed, iters):
     if not ok: return {'status': 'error', 'reason': objs}
     # slice object with renamed symbols
     wrap = os.path.join(out, 'slice_wrap.c')
-    open(wrap, 'w').write('#include "verif.h"\n#include "vec.h"\n%s%s#include "%s_types.h"\n%s#define RECURSE(f) f\n#include "%s_slice.c"\n' % (
-        ''.join('#include "%s"\n' % h for h in getattr(mod, 'TYPES_PRELUDE', [])), getattr(mod, 'NATIVE_SLICE_PRE', ''), name, ''.join('#include "%s"\n' % h for h in getattr(mod, 'SLICE_PRELUDE', [])), name))
+    open(wrap, 'w').write('#include "verif.h"\n#include "vec.h"\n' + getattr(mod, 'NATIVE_TYPES_PRE', '') + '%s%s#include "%s_types.h"\n%s#define RECURSE(f) f\n#include "%s_slice.c"\n' % (
+        ''.join('#include "%s"\n' % h for h in getattr(mod, 'TYPES_PRELUDE', [])), getattr(mod, 'NATIVE_SLICE_PRE', ''), name, ''.join('#include "%s_protos.h"\n' % d for d in getattr(mod, 'DEPS', [])) + ''.join('#include "%s"\n' % h for h in getattr(mod, 'SLICE_PRELUDE', [])), name))
     so = os.path.join(out, 'slice.o')
     defs = [d for d in getattr(mod, 'DEFS', [])] + list(getattr(mod, 'NATIVE_DEFS', []))
     rc, o = sh(['gcc', '-std=gnu11', '-O1', '-w', '-DVERIF_NATIVE_SLICE', '-I', gendir, '-I', os.path.join(VERIF, 'contracts'), '-I', os.path.join(VERIF, 'stubs')] + defs + ['-c', wrap, '-o', so])
